@@ -350,7 +350,7 @@ func verifC20ControllingReorder() {
 	verifReach("done")
 }
 
-// (3'') a deferred nomination is consumed when its pair becomes valid: a later
+// (3”) a deferred nomination is consumed when its pair becomes valid: a later
 // success response on that pair (the answer to a keepalive) must not apply it
 // a second time. Plain USE-CANDIDATE on not-yet-valid P (deferred), P's check
 // succeeds (P selected), a tick sends a keepalive on P, the peer renominates
